@@ -11,7 +11,7 @@ use serde_json::{json, Value};
 use stun_rs::{MessageMethod, StunMessageBuilder, TransactionId};
 
 pub const RULE: &str = "exhaustive: all 16384 (method,class) pairs encode-side and all 65536 16-bit type values decode-side, \
-all 400 error codes x {ERROR-CODE, ADDRESS-ERROR-CODE x 2 families}, all 128x512 ICMP type/code pairs, every transaction-id bit \
+all 400 error codes x {ERROR-CODE, ADDRESS-ERROR-CODE x 2 families}, all 128x512 ICMP type/code pairs, all 65536 values of five 16-bit fields (CHANNEL-NUMBER, RESPONSE-PORT, plain and XOR-ed IPv4 port, an UNKNOWN-ATTRIBUTES entry), every transaction-id bit \
 one-hot x 2 families x 3 XOR attributes; generated: messages as in C01 whose library encoding is compared byte for byte with the \
 reference encoder, and whose reference encoding under noise (all ones / random / each ignorable bit alone) must decode to the same values; \
 non-trivial = message has >=1 non-empty attribute (A) and, for B, >=1 ignorable bit set; distinct = hash of (message, noise)";
@@ -204,6 +204,9 @@ pub enum EnumCase {
     ErrorCode { code: u16, which: u8 },
     Icmp { typ: u8, code: u16 },
     Xor { bit: u8, v6: bool, which: u8 },
+    /// every value of a 16-bit field: 0 CHANNEL-NUMBER, 1 RESPONSE-PORT, 2 MAPPED-ADDRESS port, 3 XOR-MAPPED-ADDRESS port,
+    /// 4 a single UNKNOWN-ATTRIBUTES entry
+    U16Field { which: u8, v: u16 },
 }
 
 pub fn check_enum(c: &EnumCase, st: &mut Stats) -> Result<(), String> {
@@ -292,6 +295,25 @@ pub fn check_enum(c: &EnumCase, st: &mut Stats) -> Result<(), String> {
             let enc = ref_encode(&p.model, &mut noise);
             let (m, _) = lib_decode(&enc.bytes, &DecOpts::plain())?;
             compare_decoded(&m, &p.model, &enc)?;
+            st.nontrivial(c);
+        }
+        EnumCase::U16Field { which, v } => {
+            let attr = match which {
+                0 => RAttr::ChannelNumber(*v),
+                1 => RAttr::ResponsePort(*v),
+                2 => RAttr::MappedAddress(RAddr::V4([192, 0, 2, 1], *v)),
+                3 => RAttr::XorMappedAddress(RAddr::V4([192, 0, 2, 1], *v)),
+                _ => RAttr::UnknownAttributes(vec![*v]),
+            };
+            let msg = RMsg { method: 1, class: 2, tid: [0x5C; 12], attrs: vec![attr] };
+            let p = prepare(&msg)?;
+            let reference = ref_encode(&p.model, &mut Noise::zero());
+            let lib_bytes = lib_encode(&p.lib, reference.bytes.len(), None)?;
+            if lib_bytes != reference.bytes {
+                return Err(format!("bytes {} expected {}", hex(&lib_bytes[20..]), hex(&reference.bytes[20..])));
+            }
+            let (m, _) = lib_decode(&reference.bytes, &DecOpts::plain())?;
+            compare_decoded(&m, &p.model, &reference)?;
             st.nontrivial(c);
         }
         EnumCase::Xor { bit, v6, which } => {
@@ -420,6 +442,11 @@ pub fn enum_cases() -> Vec<EnumCase> {
             }
         }
     }
+    for which in 0u8..5 {
+        for x in 0u16..=0xFFFF {
+            v.push(EnumCase::U16Field { which, v: x });
+        }
+    }
     v
 }
 
@@ -428,7 +455,7 @@ pub fn run(ctx: &Ctx) -> RunResult {
     rr.assumptions = vec![
         "reference codec written from RFC 8489/8445/8656/5780/8016; PASSWORD-ALGORITHMS inner padding: between entries, none after the last (interpretation of RFC 8489 14.11)".into(),
         "RESPONSE-PORT encoded with length 2 plus 2 padding bytes (interpretation of RFC 5780 7.5)".into(),
-        "CHANGE-REQUEST bits other than A/B are not perturbed (RFC 5780 does not say receivers ignore them)".into(),
+        "the 30 undefined bits of CHANGE-REQUEST are treated as reserved (noise bits)".into(),
         "constructor refusals are counted, not violations".into(),
     ];
     let mut st = Stats::default();
@@ -445,7 +472,7 @@ pub fn run(ctx: &Ctx) -> RunResult {
     let complete = r.1.is_none();
     rr.absorb(r);
     rr.stats.notes.push(format!(
-        "enumerated sub-domains complete: {} ({} cases: 16384 type pairs, 65536 type fields, 1200 error codes, 65536 ICMP pairs, 576 XOR one-hot cases)",
+        "enumerated sub-domains complete: {} ({} cases: 16384 type pairs, 65536 type fields, 1200 error codes, 65536 ICMP pairs, 576 XOR one-hot cases, 5 x 65536 16-bit field values)",
         complete,
         cases.len()
     ));
